@@ -341,7 +341,12 @@ impl<'t, 'a> Gen<'t, 'a> {
             }
             10 => {
                 let op = *self.t.pick(&["+=", "=", "+=", "-=", "??=", "+=", "||=", "&&=", "**="]);
-                let target = self.assignable_ident();
+                let mut target = self.assignable_ident();
+                if self.t.chance(20) {
+                    // `(x) += v`: a parenthesised identifier is a legal target too
+                    self.tag("paren-target");
+                    target = target.paren();
+                }
                 let r = self.expr(d1);
                 if op == "+=" {
                     self.tag("add-assign-ident");
@@ -1399,7 +1404,9 @@ impl<'t, 'a> Gen<'t, 'a> {
                 s
             }
             20 => {
-                if self.t.chance(100) {
+                if self.t.chance(12) {
+                    self.long_chain()
+                } else if self.t.chance(100) {
                     self.sibling_arrows(d)
                 } else if self.t.chance(90) {
                     self.reentrant_member(d)
@@ -1689,6 +1696,26 @@ impl<'t, 'a> Gen<'t, 'a> {
             t.print(),
             Self::arg_text(&arg)
         )
+    }
+
+    /// One statement that nests many operations: a sum of N operands (left-nested N-1 deep), a fluent chain of N calls.
+    fn long_chain(&mut self) -> String {
+        self.tag("long-chain");
+        let n = *self.t.pick(&[12usize, 40, 66, 67, 70]);
+        let t = self.assignable_ident();
+        let vars: Vec<String> = self.sc().vars.clone();
+        let pick = |i: usize| vars[i % vars.len().max(1)].clone();
+        if self.t.flag() {
+            let operands: Vec<String> = (0..n).map(|i| if i % 7 == 3 { format!("'k{i}'") } else { pick(i) }).collect();
+            format!("{} = {};", t.print(), operands.join(" + "))
+        } else {
+            let m = self.method_name();
+            let mut s = pick(0);
+            for i in 0..n {
+                s.push_str(&format!(".{m}({} + {})", pick(i + 1), pick(i + 2)));
+            }
+            format!("{} = {};", t.print(), s)
+        }
     }
 
     /// A member with a body of its own that is not a `Function` node everywhere (accessor of an object literal, class
